@@ -236,6 +236,81 @@ def run_diffpath(task):
     return out
 
 
+def run_difforder(task):
+    """A diff with several file sections, one of them a deleted file, in every order: every
+    non-deleted file must be a key of the result whatever the order (C15 scope, C20 determinism)."""
+    order = task
+    prog = driver.load_program()
+    stats = PathStats()
+    f = prog.find_fn('line_changes_from_diff')
+    out = dict(violations=[], samples=[], obligations=0, cover={}, panic_paths=0, results=[])
+    secs = {0: ('alpha.py', False), 1: ('legacy.py', True), 2: ('zeta/z.py', False)}
+
+    def run_path(I):
+        def from_str_stub(I2, a, ci, dt):
+            pfs = []
+            for i in order:
+                name, removed = secs[i]
+                if removed:
+                    hunk = mk_hunk(I2, 1, 2, 0, 0, [mk_line(I2, b'-', 1, None), mk_line(I2, b'-', 2, None)])
+                    pfs.append(Struct('PatchedFile', (new_string(I2, b'a/' + name.encode()), NONE, new_string(I2, b'/dev/null'), NONE, VecVal([hunk]))))
+                else:
+                    hunk = mk_hunk(I2, 1, 1, 1, 2, [mk_line(I2, b' ', 1, 1), mk_line(I2, b'+', None, 2)])
+                    pfs.append(Struct('PatchedFile', (new_string(I2, b'a/' + name.encode()), NONE, new_string(I2, b'b/' + name.encode()), NONE, VecVal([hunk]))))
+            return Ok(Struct('PatchSet', (VecVal(pfs), Opaque('encoding'))))
+        I.stubs['<PatchSet as FromStr>::from_str'] = from_str_stub
+        return I.call_fn(f, [SStr(tuple(b'diff'), I.new_alloc(), 0)])
+
+    for I, kind, val in explore(prog, models.M, run_path, stats=stats, max_paths=100):
+        out['obligations'] += 1
+        if kind == 'panic' or val.v != 0:
+            out['violations'].append(dict(role='diff-sections-error', summary='line_changes_from_diff failed on a multi-file diff', order=list(order)))
+            continue
+        keys = sorted(bytes(e.f[0].b).decode() for e in val.f[0].entries)
+        if keys != ['alpha.py', 'zeta/z.py']:
+            out['violations'].append(dict(role='diff-section-lost', order=list(order),
+                                          summary='diff sections in order %s: files %s instead of alpha.py, zeta/z.py' % ([secs[i][0] for i in order], keys)))
+        out['cover']['diff-orders'] = out['cover'].get('diff-orders', 0) + 1
+    out.update(Agg(PROP, 'x').stats_from(stats))
+    return out
+
+
+def confirm_difforder(binary, v, idx, prop=PROP):
+    v['confirmed'] = False
+    secs = {0: ('alpha.py', False), 1: ('legacy.py', True), 2: ('zeta/z.py', False)}
+    diff = ''
+    files = {}
+    for i in v['order']:
+        name, removed = secs[i]
+        if removed:
+            diff += 'diff --git a/%s b/%s\ndeleted file mode 100644\n--- a/%s\n+++ /dev/null\n@@ -1,2 +0,0 @@\n-x\n-y\n' % (name, name, name)
+        else:
+            files[name] = b'# <block name="k">\nnew\n# </block>\n'
+            diff += 'diff --git a/%s b/%s\n--- a/%s\n+++ b/%s\n@@ -1,1 +1,2 @@\n # <block name="k">\n+new\n' % (name, name, name, name)
+    d = scratch_dir('c15o')
+    try:
+        git_init(d)
+        for n, c in files.items():
+            p = os.path.join(d, n)
+            os.makedirs(os.path.dirname(p), exist_ok=True)
+            open(p, 'wb').write(c)
+        r = run_blockwatch(binary, d, ['list'], stdin=diff.encode())
+    finally:
+        shutil.rmtree(d, ignore_errors=True)
+    keys = []
+    try:
+        keys = sorted(json.loads(r['stdout'] or '{}').keys())
+    except ValueError:
+        pass
+    v['observed'] = dict(code=r['code'], keys=keys)
+    if keys != ['alpha.py', 'zeta/z.py']:
+        v['confirmed'] = True
+        files2 = dict(files)
+        files2['input.diff'] = diff.encode()
+        v['replay'] = save_replay(prop, '%s-%d' % (v['role'], idx), files2, 'list', 'expected alpha.py and zeta/z.py listed; ' + v['summary'], v, stdin_file='input.diff')
+    return v
+
+
 # ------------------------------------------------------------------ replay on the real binary
 
 def observe_scope(binary, v):
@@ -362,6 +437,7 @@ def main(tier):
         dtasks.append((L, False, False, False))
     dtasks.append((3, True, True, False))
     results += pmap(run_diffpath, dtasks)
+    results += pmap(run_difforder, list(itertools.permutations(range(3))))
     for r in results:
         agg.add(r)
     from . import mainwire
@@ -373,7 +449,10 @@ def main(tier):
     for role, vs in sorted(by_role.items()):
         got = None
         for i, v in enumerate(vs[:10]):
-            confirm(binary, v, i)
+            if 'order' in v and 'files' not in v:
+                confirm_difforder(binary, v, i)
+            else:
+                confirm(binary, v, i)
             if v['confirmed']:
                 got = v
                 break
@@ -410,7 +489,7 @@ def main(tier):
                      'targets without the b/ prefix whose own first component is `b` are outside the claim'],
         stubs=['FileSystem::walk', 'FileSystem::read_to_string', 'PathChecker::should_allow', 'PathChecker::should_ignore',
                'BlocksParser::parse', 'PatchSet::from_str'],
-        must_cover=['main', 'scope-paths', 'diffpath', 'removed'],
+        must_cover=['main', 'scope-paths', 'diffpath', 'removed', 'diff-orders'],
         explanation='per path: for every file, PC∧in_scope∧not read, PC∧¬in_scope∧read, read twice; diff key vs target minus one b/')
 
 
